@@ -107,24 +107,24 @@ def _distinguish(entries, idx):
     return {k: v for k, v in e.items() if not k.startswith("$") and _plain_scalar(v)}
 
 
-def _patch_into(node, path):
-    """A layer fragment that adds MARK inside the container found at `path` below `node`."""
+def _patch_into(node, path, mark=MARK):
+    """A layer fragment that adds `mark` inside the container found at `path` below `node`."""
     if not path:
         if isinstance(node, dict):
-            return {MARK: [1]}     # applied twice through an alias this becomes [1, 1]
+            return {mark: [1]}     # applied twice through an alias this becomes [1, 1]
         if isinstance(node, list):
-            return [MARK]
+            return [mark]
         return None
     el = path[0]
     if "k" in el:
         if not isinstance(node, dict) or el["k"] not in node or el["k"].startswith("$"):
             return None
-        sub = _patch_into(node[el["k"]], path[1:])
+        sub = _patch_into(node[el["k"]], path[1:], mark)
         return None if sub is None else {el["k"]: sub}
     if not isinstance(node, list) or el["i"] >= len(node):
         return None
     pat = _distinguish(node, el["i"])
-    sub = _patch_into(node[el["i"]], path[1:])
+    sub = _patch_into(node[el["i"]], path[1:], mark)
     if pat is None or not isinstance(sub, dict):
         return None
     return [dict(sub, **{"$match": pat})]
@@ -144,21 +144,50 @@ def alias_followups(case, go):
             except Exception:
                 docs = None
         if "alias" in step and res.get("shared") and docs is not None:
+            def layer_for(tgt, mark=MARK):
+                di, path = tgt[0], tgt[1:]
+                if di >= len(docs):
+                    return None
+                body = _patch_into(docs[di], path, mark)
+                if not isinstance(body, dict):
+                    return None
+                sel = {} if len(docs) == 1 else _distinguish(docs, di)
+                if sel is None:
+                    return None
+                return dict(body, **{"$match": sel})
+
+            def node_at(tgt):
+                n = docs[tgt[0]] if tgt[0] < len(docs) else None
+                for el in tgt[1:]:
+                    try:
+                        n = n[el["k"]] if "k" in el else n[el["i"]]
+                    except Exception:
+                        return None
+                return n
+            merges = [s for s in case["steps"][:si] if "merge" in s]
+            tail = [{"docs": True}, {"outdocs": True}]
             for pair in res.get("pairs") or []:
+                targets = [pair["a"], pair["b"]]
+                # a shared LIST shares its entries as well: aim at the map entries (an append to the list itself goes
+                # to a fresh or private slice header and shows nothing)
                 for tgt in (pair["a"], pair["b"]):
-                    di, path = tgt[0], tgt[1:]
-                    if di >= len(docs):
+                    n = node_at(tgt)
+                    if isinstance(n, list):
+                        targets += [list(tgt) + [{"i": i}] for i, e in enumerate(n[:3]) if isinstance(e, dict)]
+                for tgt in targets:
+                    layer = layer_for(tgt)
+                    if layer is None:
                         continue
-                    body = _patch_into(docs[di], path)
-                    if not isinstance(body, dict):
-                        continue
-                    sel = {} if len(docs) == 1 else _distinguish(docs, di)
-                    if sel is None:
-                        continue
-                    layer = dict(body, **{"$match": sel})
-                    steps = [s for s in case["steps"][:si] if "merge" in s]
-                    steps += [{"merge": {"id": "ALIAS", "parents": [], "data": layer}}, {"docs": True}, {"outdocs": True}]
-                    out.append({"steps": steps, "env": case.get("env") or {}, "alias_followup": True})
+                    out.append({"steps": merges + [{"merge": {"id": "ALIAS", "parents": [], "data": layer}}] + tail,
+                                "env": case.get("env") or {}, "alias_followup": True})
+                # two appends, one through each access path: with spare capacity in a shared backing array the second
+                # overwrites what the first wrote
+                la, lb = layer_for(pair["a"], MARK + "A"), layer_for(pair["b"], MARK + "B")
+                if la is not None and lb is not None:
+                    for first, second in ((la, lb), (lb, la)):
+                        out.append({"steps": merges + [{"merge": {"id": "ALIAS1", "parents": [], "data": first}},
+                                                       {"merge": {"id": "ALIAS2", "parents": [], "data": second}}] + tail,
+                                    "env": case.get("env") or {}, "alias_followup": True})
     return out
 
 
